@@ -720,6 +720,7 @@ func (w *World) intrinsic(t *Thread, f *Frame, fnv FuncV, args []Val, c *ssa.Cal
 		w.names["uuid"]++
 		return fmt.Sprintf("uuid-%d", w.names["uuid"]), false
 	case "math/rand/v2.Float64", "math/rand.Float64":
+		w.usesRand = true
 		if w.randFixed {
 			return 0.5, false
 		}
